@@ -483,6 +483,16 @@ func (rt *Runtime) buildServer() (*wire.Server, error) {
 		}))
 	}
 	for i := 0; i < cfg.ExtendTypes; i++ {
+		if cfg.ExtendReal {
+			opts = append(opts, wire.ExtendTypes(func(m *pgtype.Map) {
+				m.RegisterType(&pgtype.Type{Name: "text", OID: pgtype.TextOID, Codec: pgtype.ByteaCodec{}})
+				m.RegisterType(&pgtype.Type{Name: "varchar", OID: pgtype.VarcharOID, Codec: pgtype.ByteaCodec{}})
+				m.RegisterType(&pgtype.Type{Name: "timestamp", OID: pgtype.TimestampOID, Codec: &pgtype.TimestamptzCodec{}})
+				m.RegisterType(&pgtype.Type{Name: "numeric", OID: pgtype.NumericOID, Codec: pgtype.TextCodec{}})
+				m.RegisterType(&pgtype.Type{Name: "sim_extra", OID: 90001, Codec: pgtype.TextCodec{}})
+			}))
+			continue
+		}
 		opts = append(opts, wire.ExtendTypes(func(*pgtype.Map) {}))
 	}
 	if cfg.UserCaches {
